@@ -243,6 +243,7 @@ def P5(ctx):
             ctx.bad("P5", s["path"], "new process-level mutable state `%s: %s`: it survives a model run and can leak into a later one" %
                     (s["path"], s["ty"]), "%s:%s" % (s["file"], s["line"]))
     ctx.floor("P5", n, 2, "NEXT_ID and the scoped STATE key")
+WITNESSES = ['C06ModelNeedsFn', 'C06ModelNeedsSendSync']
 
 
 def run(ctx):
